@@ -232,10 +232,11 @@ Definition dir_as (esc colon at_ : bool) (ps : list param) (c : ctl) : pres :=
       let c := add_taint c (negb (text_eqb ti ts)) in
       match get_int 0 ps 0 true, get_int 1 ps 1 true, get_int 2 ps 0 true, get_chr 3 ps [sp] with
       | GOk mincol, GOk colinc, GOk minpad, Some padchar =>
+          if (colinc <? 1)%Z then err c else          (* colinc directive parameter must be positive *)
           match pad_loop (S (Z.to_nat mincol)) (List.length out) (Z.to_nat mincol) (Z.to_nat colinc) padchar
                          (repeat_text padchar (Z.to_nat minpad)) with
           | Some pad => Ok (emit c (if at_ then pad ++ out else out ++ pad), false)
-          | None => OutOfFuel            (* colinc = 0: the Go loop does not terminate *)
+          | None => OutOfFuel
           end
       | GUnsup, _, _, _ | _, GUnsup, _, _ | _, _, GUnsup, _ => Unsup
       | _, _, _, _ => err c
@@ -303,9 +304,7 @@ Definition dir_radix (colon at_ : bool) (ps : list param) (c : ctl) : pres :=
            | GUnsup => Unsup
            end
   end.
-(* ~T (dirT) *)
-Definition opt_nat_eqb (x y : option nat) : bool :=
-  match x, y with Some a, Some b => Nat.eqb a b | None, None => true | _, _ => false end.
+(* ~T (dirT); site: the number of spaces *)
 Definition dir_tab (colon at_ : bool) (ps : list param) (c : ctl) : pres :=
   match get_int 0 ps 0 true, get_int 1 ps 1 true with
   | GOk colnum, GOk colinc =>
@@ -314,11 +313,8 @@ Definition dir_tab (colon at_ : bool) (ps : list param) (c : ctl) : pres :=
       (* the definition: both parameters default to 1; the column is the one of the whole output *)
       let cn := if given 0%nat then Z.to_nat colnum else 1%nat in
       let cur := column (c_pre c ++ c_out c) in
-      let s := Some (if at_ then std_tab_rel cn (Z.to_nat colinc) cur else std_tab_abs cn (Z.to_nat colinc) cur) in
-      match pick i s with
-      | Some n => Ok (emit_n (add_taint c (negb (opt_nat_eqb i s))) [sp] n, false)
-      | None => Err (c_taint c || negb (opt_nat_eqb i s))
-      end
+      let s := if at_ then std_tab_rel cn (Z.to_nat colinc) cur else std_tab_abs cn (Z.to_nat colinc) cur in
+      Ok (emit_n (add_taint c (negb (Nat.eqb i s))) [sp] (pick i s), false)
   | GUnsup, _ | _, GUnsup => Unsup
   | _, _ => err c
   end.
